@@ -87,6 +87,8 @@ def run(ctx):
                 axes = bipartition(rng, a.ndim)
                 if which == "svd" and rng.random() < 0.05:
                     do_svd_partial(ctx, yastn, rng, cfg, sym, cplx)
+                elif which == "svd" and rng.random() < 0.03:
+                    do_eigh_partial(ctx, yastn, rng, cfg, sym)
                 elif which == "svd":
                     do_svd(ctx, yastn, rng, cfg, sym, a, axes)
                 else:
@@ -195,6 +197,9 @@ def do_svd_partial(ctx, yastn, rng, cfg, sym, cplx):
     sector wide enough for scipy's iterative solvers: what the property says about ANY svd result still holds - U isometric, V
     co-isometric, singular values non-negative and descending within each sector - and the values are the k largest of the sector."""
     wide = rng.randint(22, 40)
+    edge = rng.random() < 0.2      # a sector of more than 5000 elements asked for k = min(D) - 1 triples: the boundary between the iterative solver and the dense fallback
+    if edge:
+        wide = rng.randint(72, 76)
     if sym == "dense":
         l0 = yastn.Leg(cfg, s=1, D=(wide,)); l1 = yastn.Leg(cfg, s=-1, D=(wide + rng.randint(0, 6),))
     else:
@@ -205,6 +210,10 @@ def do_svd_partial(ctx, yastn, rng, cfg, sym, cplx):
     a = yastn.rand(config=cfg, legs=[l0, l1], n=cfg.sym.zero())
     policy = rng.choice(["lowrank", "block_arnoldi", "block_propack", "block_propack"])
     k = rng.choice([1, 2, 2])
+    if edge:
+        policy, k = rng.choice(["lowrank", "block_arnoldi"]), wide - 1
+        if a.yastn_dtype != "float64":      # (complex data: scipy's ARPACK limits differ; kept out of this stratum)
+            a = a.real() if hasattr(a, "real") else a
     kw = {"D_block": k} if rng.random() < 0.5 else {"k_block": k}
     sU = rng.choice([1, -1])
     case = describe(a, ((0,), (1,)), sU=sU, which="svd-partial", policy=policy, k=k, wide=wide, seed_note="yastn.rand seeded from VERIF_SEED")
@@ -217,6 +226,9 @@ def do_svd_partial(ctx, yastn, rng, cfg, sym, cplx):
         return
     except np.linalg.LinAlgError as e:
         ctx.count(f"svd-partial:solver-gave-up:{policy}")   # scipy's iterative solver reports non-convergence: no result to judge
+        return
+    except Exception as e:  # noqa: BLE001   (a valid request - k triples of a sector holding more - must be answered)
+        ctx.fail("oracle", "c04:svd-partial:raises", f"svd(policy={policy}, {kw}) on a sector of width {wide} raised {type(e).__name__}: {str(e)[:120]}", case=case, concrete=True)
         return
     ptol = 1e-6    # scipy's iterative solvers start from a random vector and converge to ~1e-8
     UU = yastn.tensordot(U, U, axes=(0, 0), conj=(1, 0))
@@ -242,6 +254,52 @@ def do_svd_partial(ctx, yastn, rng, cfg, sym, cplx):
     core = yastn.tensordot(yastn.tensordot(U, a, axes=(0, 0), conj=(1, 0)), V, axes=(1, 1), conj=(0, 1))
     if float((core - S.diag()).norm()) > 1e-5 * max(1.0, float(a.norm())):
         ctx.fail("oracle", "c04:svd-partial:triples", f"policy={policy}: U^+ a V^+ differs from S", case=case, concrete=True)
+
+
+def do_eigh_partial(ctx, yastn, rng, cfg, sym):
+    """eigh with the block-wise partial solver (policy='block_lanczos', k eigenpairs per sector, every ordering `which`): U isometric,
+    a U = U S, and S holds the k eigenvalues of the sector that `which` puts first, in that order."""
+    d = rng.randint(6, 16)
+    if sym == "dense":
+        l0 = yastn.Leg(cfg, s=1, D=(d,))
+    else:
+        ts = sorted({tgen.rand_charge(rng, sym) for _ in range(3)})[: rng.randint(1, 2)]
+        l0 = yastn.Leg(cfg, s=1, t=ts, D=[d] + [rng.randint(2, 5) for _ in ts[1:]])
+    c = yastn.rand(config=cfg, legs=[l0, l0.conj()], n=cfg.sym.zero())
+    a = c + c.conj().transpose(axes=(1, 0))
+    which = rng.choice(["LR", "LR", "SR", "LM", "SM"])
+    k = rng.randint(1, 3)
+    kw = {"D_block": k} if rng.random() < 0.5 else {"k_block": k}
+    case = describe(a, ((0,), (1,)), which="eigh-partial", order=which, k=k, d=d)
+    ctx.case(case, nontrivial=True)
+    ctx.count(f"eigh-partial:{which}")
+    try:
+        S, U = yastn.linalg.eigh(a, axes=(0, 1), which=which, policy="block_lanczos", **kw)
+    except yastn.YastnError as e:
+        ctx.count(f"eigh-partial:rejected:{str(e)[:40]}")
+        return
+    except Exception as e:  # noqa: BLE001   (scipy's iterative solver may give up: nothing to judge)
+        ctx.count(f"eigh-partial:solver-raised:{type(e).__name__}")
+        return
+    ptol = 1e-6
+    scale = max(1.0, float(a.norm()))
+    UU = yastn.tensordot(U, U, axes=(0, 0), conj=(1, 0))
+    if float((UU - yastn.eye(cfg, legs=UU.get_legs(), isdiag=False)).norm()) > ptol * max(1, UU.get_shape(0)):
+        ctx.fail("oracle", "c04:eigh-partial:U-isometry", f"which={which}: U^+ U != 1", case=case, concrete=True)
+    if float((a @ U - U @ S).norm()) > ptol * scale:
+        ctx.fail("oracle", "c04:eigh-partial:eigenpairs", f"which={which}, k={k}: |a U - U S| = {float((a @ U - U @ S).norm()):.3e}", case=case, concrete=True)
+    nsym = cfg.sym.NSYM
+    row_of = {ut[nsym:]: ut[:nsym] for ut in U.struct.t}
+    blk_of = {at[:nsym]: at for at in a.struct.t}
+    key = {"LR": lambda x: -x, "SR": lambda x: x, "LM": lambda x: -abs(x), "SM": lambda x: abs(x)}[which]
+    for t in S.struct.t:
+        sv = np.real(np.asarray(S[t]))
+        ref = np.linalg.eigvalsh(np.asarray(a[blk_of[row_of[t[nsym:]]]]))
+        want = np.array(sorted(ref, key=key)[: len(sv)])
+        if len(sv) > len(ref) or not np.allclose(sv, want, atol=1e-5 * scale):
+            ctx.fail("oracle", "c04:eigh-partial:values", f"which={which}: sector {t}: {sv[:6]} are not the first {len(sv)} eigenvalues in the order '{which}': {want[:6]}",
+                     case=case, concrete=True)
+            break
 
 
 def do_qr(ctx, yastn, rng, cfg, sym, a, axes):
